@@ -463,7 +463,24 @@ def r5_proxy(ctx):
     ctx.check(ok_ln, "C15.R5", ln, ln.node, "length of the subset", f"FilteredMappingProxy.__len__ is `{'; '.join(canon_lines(ln.node))[:90]}`: not the number of names it was given", construct="__len__")
 
 
+def r6_edges_from_every_definition(ctx):
+    """`from_dict` derives the edges from the definitions: every variable, whatever its kind, is asked for the names it depends on."""
+    from ..astq import canon_lines
+    ctx.rule("C15.R6", "from_dict: the edge map is {name: definition.get_ancestors_names()} for every entry, unconditionally", 1)
+    f = ctx.ix.func(DAG, f"{CLS}.from_dict", "C15.R6")
+    import re as _re
+    rets = [ln for ln in canon_lines(f.node, True, True) if ln.startswith("return ")]
+    text = "; ".join(rets)
+    ok = len(rets) == 1 and _re.fullmatch(r"return \$0\((variables=)?\$1, direct_ancestors=\{(%\d+): (%\d+)\.get_ancestors_names\(\) for \2, \3 in \$1\.items\(\)\}\)", rets[0]) is not None
+    confirmed = {text} if ok else set()
+    ctx.form("C15.R6", f, f.node, text, confirmed, [".get_ancestors_names()", "$1.items()"], "every definition contributes its own dependencies",
+             "from_dict no longer takes the dependencies of every definition from `get_ancestors_names()`: a variable whose declared dependencies are left out is treated as a root "
+             "(emitted before what it depends on, missing from the closures, its unknown / cyclic references accepted)",
+             forbidden=[r"get_ancestors_names\(\) if ", r" if isinstance\(", r"\bfor\b[^{}]*\bif\b"], construct="edges from the definitions")
+
+
 def rules(ctx):
+    r6_edges_from_every_definition(ctx)
     r1_validators(ctx)
     r2_determinism(ctx)
     r3_shipped_graphs(ctx)
